@@ -135,6 +135,16 @@ class Contract:
                  member=_member, psum=_psum, ksum=_ksum, is_int=_is_int, dict_values_in=_dict_values_in, np=np, len=len, abs=abs, min=min, max=max)
         e.update(self.extra)
         e.update(args)
+        # ghost locals defined by plain assignments in the contract's ghost_init (e.g. a ghost table computed from the arguments)
+        gi = self.c.get("ghost_init")
+        if gi:
+            src = "\n".join(gi) if isinstance(gi, (list, tuple)) else gi
+            for st in ast.parse(src).body:
+                if isinstance(st, ast.Assign):
+                    try:
+                        exec(compile(ast.Module([st], []), "<ghost_init>", "exec"), e)
+                    except Exception:
+                        pass
         if has_result:
             e["result"] = result
         if old_args is not None:
